@@ -112,6 +112,7 @@ func runC17(c *Ctx) {
 	t := c.Scen
 	cs := NewClientSim(c, client.ConnectionTypeFull)
 	cs.S.PreemptDen = uint32(pickFrom(t, 0, 2, 3, 4, 8, 16))
+	maybeStalls(c, cs.S)
 	r := &c17run{c: c, cs: cs, w: NewTxWorld(), dropAfter: map[int]int{}, streamed: map[int]int{}}
 	r.mode = pickStr(t, "resume-exact", "resume-exact", "noisy")
 	n := 3 + int(t.Choose(25))
@@ -161,20 +162,22 @@ func runC17(c *Ctx) {
 	done := false
 	simrt.Go("driver", func() {
 		defer func() { done = true }()
-		cs.Start()
-		cs.H1.ReadyMode = readyMode
-		cs.H1.ReadyFirst = firstReady
-		if firstReady > 1 {
-			cs.H1.last = firstReady - 1
-		}
-		if slow {
-			cs.H1.Slow = func() time.Duration {
-				if t.Bool(1, 3) {
-					return time.Duration(t.Choose(400)) * time.Millisecond
-				}
-				return 0
+		simrt.NoPreempt(func() { // the application is configured before the client runs
+			cs.Start()
+			cs.H1.ReadyMode = readyMode
+			cs.H1.ReadyFirst = firstReady
+			if firstReady > 1 {
+				cs.H1.last = firstReady - 1
 			}
-		}
+			if slow {
+				cs.H1.Slow = func() time.Duration {
+					if t.Bool(1, 3) {
+						return time.Duration(t.Choose(400)) * time.Millisecond
+					}
+					return 0
+				}
+			}
+		})
 		// let the streams, drops and reconnects play out
 		quiet := 0
 		lastLen := -1
